@@ -40,6 +40,18 @@ inductive UM : List Green → Prop
 /-- a child of a `QualifiedPath` -/
 def QPok (g : Green) : Prop := IsNode g ∨ IsTok c .Ident g ∨ IsTok c .DoubleColon g
 
+/-- a parameter: the name, then nodes (type annotation, default value) -/
+def ParamItem (c : Ctx) (it : List Green) : Prop := ∃ i rest, it = i :: rest ∧ IsTok c .Ident i ∧ ∀ g ∈ rest, IsNode g
+
+/-- what the parameter loop leaves: parameters and commas, a parameter is followed by a comma or by the end -/
+inductive PLang (c : Ctx) : List Green → Prop
+  | nil : PLang c []
+  | item (it : List Green) : ParamItem c it → PLang c it
+  | itemComma (it : List Green) (cm : Green) (rest : List Green) : ParamItem c it → IsTok c .Comma cm → PLang c rest →
+      PLang c (it ++ cm :: rest)
+  | comma (cm : Green) (rest : List Green) : IsTok c .Comma cm → PLang c rest → PLang c (cm :: rest)
+
+
 variable {c}
 /-! ## Relations between the children before and after -/
 
@@ -73,6 +85,7 @@ def Rs (t : Tag) (s s' : St) : Prop :=
   | .useMultiLoop => App (UM c) s s'
   | .usePathLoop | .qualifiedPathLoop => App (fun w => ∀ g ∈ w, QPok c g) s s'
   | .blockLoop => App (fun w => ∀ g ∈ w, IsNode g) s s'
+  | .paramLoop => App (PLang c) s s'
   | _ => True
 
 /-- … and the end of the input is never left -/
